@@ -181,30 +181,30 @@ Proof.
     assert (Hnd' : NoDup (i :: vnot s)) by (constructor; assumption).
     assert (Hb' : forall k, In k (i :: vnot s) -> (k < n)%nat) by (intros k [<-|Hk]; auto).
     pose proof (bounded_nodup_length n _ Hnd' Hb') as Hle'. cbn [length] in Hle'.
-    unfold vinv; cbn [vw vfin vended vnot vrdy vinvoked]. repeat split; try assumption; try lia.
-    + cbn [length]. lia.
-    + destruct (vended s); lia.
-    + assert (Hpos : 0 < vw s) by (destruct (vended s); lia).
-      rewrite Hinv. destruct (vw s =? 0) eqn:E0; [apply Z.eqb_eq in E0; lia|].
-      destruct (vertex_ready_fires (vw s)) eqn:Ef.
-      * apply vertex_ready_fires_spec in Ef. rewrite Ef. reflexivity.
-      * destruct (vw s - 1 =? 0) eqn:E1; [|reflexivity]. apply Z.eqb_eq in E1.
-        assert (vertex_ready_fires (vw s) = true) by (apply vertex_ready_fires_spec; lia). congruence.
+    unfold vinv; cbn [vw vfin vended vnot vrdy vinvoked].
+    split; [assumption|]. split; [assumption|]. split; [lia|]. split; [lia|].
+    split; [cbn [length]; lia|]. split; [destruct (vended s); lia|].
+    assert (Hpos : 0 < vw s) by (destruct (vended s); lia).
+    rewrite Hinv. destruct (vw s =? 0) eqn:E0; [apply Z.eqb_eq in E0; lia|].
+    destruct (vertex_ready_fires (vw s)) eqn:Ef.
+    + apply vertex_ready_fires_spec in Ef. rewrite Ef. reflexivity.
+    + destruct (vw s - 1 =? 0) eqn:E1; [|reflexivity]. apply Z.eqb_eq in E1.
+      assert (vertex_ready_fires (vw s) = true) by (apply vertex_ready_fires_spec; lia). congruence.
   - (* VActRet *)
     destruct ((i <? n)%nat && negb (nmem i (vnot s)) && negb (vended s)) eqn:G; [|discriminate].
     inversion Hst; subst s'; clear Hst.
     apply andb_prop in G. destruct G as [G Ge]. apply andb_prop in G. destruct G as [Gi Gm].
     apply Nat.ltb_lt in Gi. apply negb_true_iff in Gm. apply negb_true_iff in Ge.
     assert (Hni : ~ In i (vnot s)) by (intro X; apply nmem_in in X; congruence).
-    unfold vinv; cbn [vw vfin vended vnot vrdy vinvoked]. rewrite Ge in *. repeat split; try assumption; try lia.
-    + constructor; assumption.
-    + intros k [<-|Hk]; auto.
-    + cbn [length]. lia.
+    unfold vinv; cbn [vw vfin vended vnot vrdy vinvoked]. rewrite Ge in *.
+    split; [constructor; assumption|]. split; [intros k [<-|Hk]; auto|]. split; [lia|]. split; [lia|].
+    split; [cbn [length]; lia|]. split; [lia|]. assumption.
   - (* VActEnd *)
     destruct (vended s) eqn:Ee; [discriminate|].
     destruct (vertex_finished_pos (vfin s)) eqn:Ep.
     + inversion Hst; subst s'; clear Hst. apply vertex_finished_pos_spec in Ep.
-      unfold vinv; cbn [vw vfin vended vnot vrdy vinvoked]. repeat split; try assumption; try lia.
+      unfold vinv; cbn [vw vfin vended vnot vrdy vinvoked].
+      split; [assumption|]. split; [assumption|]. split; [lia|]. split; [lia|]. split; [lia|]. split; [lia|].
       rewrite vertex_act_remaining_spec by lia.
       rewrite Hinv. destruct (vw s =? 0) eqn:E0; [apply Z.eqb_eq in E0; lia|].
       unfold vertex_act_fires. reflexivity.
@@ -212,7 +212,8 @@ Proof.
       assert (vfin s = 0).
       { destruct (Z.eq_dec (vfin s) 0); [assumption|].
         assert (vertex_finished_pos (vfin s) = true) by (apply vertex_finished_pos_spec; lia). congruence. }
-      unfold vinv; cbn [vw vfin vended vnot vrdy vinvoked]. repeat split; try assumption; try lia.
+      unfold vinv; cbn [vw vfin vended vnot vrdy vinvoked].
+      split; [assumption|]. split; [assumption|]. split; [lia|]. split; [lia|]. split; [lia|]. split; [lia|]. assumption.
 Qed.
 
 Lemma vinv_run : forall n l s, (1 <= n)%nat -> Z.of_nat n < 2 ^ 64 -> vinv n s -> vinv n (vrun n s l).
